@@ -30,7 +30,7 @@ CHECKS = {
    "Held on the executions produced.",
    "runtime monitoring: reference transformer model at the service boundary", "DESIGN.md#c12"),
  "C02": ("exploration",
-   "Drives the real generated client against the real generated server with script-defined handlers for all four call shapes; compares the client-visible history with a reference model of the shapes and the handler-side log with what the caller sent. Quick: in-process loopback transport whose bodies are re-chunked/merged with injected Pending. Thorough adds real Endpoint/Server HTTP/2 over a fragmenting pipe with tiny windows on a paused clock.",
+   "Drives the real generated client against the real generated server with script-defined handlers for all four call shapes; compares the client-visible history with a reference model of the shapes and the handler-side log with what the caller sent. Quick: in-process loopback transport whose bodies are re-chunked/merged with injected Pending. Both tiers also run the scripts over real Endpoint/Server HTTP/2 on fragmenting pipes with tiny windows on a paused clock. Handler streams may continue after their error item and every body is probed after its trailers; some response streams are reset before any status (never a success); a few messages exceed the 4 MiB default through cloned, reconfigured clients.",
    "Held on the executions produced; metadata compared by inclusion because tonic legitimately adds headers.",
    "runtime monitoring: reference model of the call shapes at client and handler boundaries", "DESIGN.md#c02"),
  "C13": ("fault_enumeration",
@@ -38,7 +38,7 @@ CHECKS = {
    "Held on the schedules produced (virtual time, tokio select! branch order is not seedable); benign close model (no RST) in the pipe; server windows below the HTTP/2 default only on pre-established connections (h2 stalls otherwise, see DESIGN.md).",
    "runtime monitoring: offline event-log checker over signal placements in virtual time", "DESIGN.md#c13"),
  "C14": ("fault_enumeration",
-   "Enumerates (thorough: all 1800; quick: a seeded sample) short scripts over {connect fails, connect succeeds, established connection reset} x lazy/eager plus sampled longer ones; a scripted connector feeds the real Channel and a real server; each call is judged by a reference model driven by the connector invocations actually observed during that call; hangs are decided in virtual time.",
+   "Enumerates (thorough: all 1800; quick: a seeded sample) short scripts over {connect fails, connect succeeds, established connection reset} x lazy/eager plus sampled longer ones; a scripted connector feeds the real Channel and a real server; each call is judged by a reference model driven by the connector invocations actually observed during that call; sampled scripts add two concurrent calls on cloned clients (failed calls <= failed attempts observed) and calls whose connection is dropped in flight; hangs are decided in virtual time.",
    "Held on the scripts produced; calls are issued at quiescent points only (as the property says).",
    "runtime monitoring: fault-script enumeration + reference model driven by observed connector invocations", "DESIGN.md#c14"),
  "C05": ("exploration",
@@ -50,7 +50,7 @@ CHECKS = {
    "Held on the executions produced; durations above 99999999 h are outside the property; ties (latency == timeout) excluded.",
    "runtime monitoring: grammar oracle + hooked parser + virtual-time enforcement monitor", "DESIGN.md#c09"),
  "C16": ("exploration",
-   "Drives the real GrpcWebLayer over a scripted inner service: responses under every chunking class and both encodings are decoded by an independent grpc-web decoder; requests (binary / base64 text cut anywhere) must reach the inner service as the original gRPC bytes; the full method x version x content-type matrix is walked exhaustively.",
+   "Drives the real GrpcWebLayer over a scripted inner service: responses under every chunking class and both encodings are decoded by an independent grpc-web decoder; requests (binary / base64 text cut anywhere) must reach the inner service as the original gRPC bytes with their gRPC and custom headers unchanged; the full method x version x content-type matrix is walked exhaustively.",
    "Held on the executions produced; unpadded base64 request bodies whose length is not a multiple of 4 are only checked for not delivering garbage.",
    "runtime monitoring: independent grpc-web decoder + exhaustive status matrix", "DESIGN.md#c16"),
  "C17": ("exploration",
@@ -62,9 +62,9 @@ CHECKS = {
    "Held on the executions produced; HTTP/2 HPACK is not in the path of the quick tier.",
    "runtime monitoring: taint tags + wire taps + multimap equality at both API boundaries", "DESIGN.md#c08"),
  "C18": ("exploration",
-   "Random sequential histories over set/clear/check/watch/next through the generated HealthClient, with watchers polled only when an executor would poll them (never polled, or woken since their last Pending) and a sequential reference model; plus concurrent histories on a multi-thread runtime checked for per-service linearizability (Wing-Gong search over a register model, 2 s checker timeout => inconclusive) and watch-stream constraints.",
+   "Random sequential histories over set/clear/check/watch/next through the generated HealthClient, with watchers polled only when an executor would poll them (never polled, or woken since their last Pending) and a sequential reference model; plus concurrent histories on a multi-thread runtime checked for per-service linearizability (Wing-Gong search over a register model, 2 s checker timeout => inconclusive) and watch-stream constraints; plus forced interleavings on a current-thread runtime (a writer burns tokio's cooperative budget so that it yields inside the reporter between look-up and update) judged against both sequential orders.",
    "Held on the histories produced; in the concurrent leg staleness is never decided by wall-clock (watchdog => inconclusive), the sequential leg decides it.",
-   "runtime monitoring: sequential reference model with executor-faithful watcher scheduling + linearizability checker", "DESIGN.md#c18"),
+   "runtime monitoring: sequential reference model with executor-faithful watcher scheduling + linearizability checker + forced-yield interleavings", "DESIGN.md#c18"),
  "C19": ("exploration",
    "Generates descriptor sets (nested packages, messages to depth 3 incl. field-less namespaces, oneofs, enums, services), registers them decoded/encoded in several sets with shared and repeated files, builds the real v1 and v1alpha services and queries every declared fully-qualified name, every file and the service list through the generated reflection clients; the harness's own descriptor walk is the oracle; mutated names must be NOT_FOUND; both versions must agree.",
    "Held on the descriptor sets produced; fully-qualified names are generated unique (protobuf requires it); enum values are addressed as <enum>.<VALUE>.",
@@ -82,9 +82,9 @@ CHECKS = {
    "Exhaustive over the stated matrix, not over certificates (one PKI under fixtures/pki, 2020-2120); for the ALPN none/http1.1 rows the server-side TLS is the harness's rustls configuration (tonic's server always offers h2).",
    "runtime monitoring: exhaustive configuration matrix + decision-table oracle + wire tap", "DESIGN.md#c15"),
  "C11": ("exploration",
-   "Runs the real generator over random service descriptors and option combinations, parses the output with syn and compares, per method, the path/shape/types the generated client uses with the ones the generated server dispatches on and with expectations derived from the descriptor, plus SERVICE_NAME/NamedService; a second leg copies /repo to a scratch directory, runs the real codegen binary and byte-compares the committed generated sources of the health, reflection and rich-error crates. End-to-end dispatch of generated code is exercised by C02 and C10 whose services are generated at build time by the same generator.",
+   "Compiled-and-run leg: the real generator is run over a fixed family of 18 descriptor sets (27 services, 99 methods over all shapes, package forms, name shapes and builder options); trait implementations and a driver are derived from the public surface of the output only, compiled, and every generated client method is called against the generated server of its service while a tap records the path sent and which handler ran. Token leg: the generator is run over random descriptors and options and the output is inspected with syn (paths, shapes, types, advertised names; detailed checks only where the known dispatch structure is recognised). Regeneration leg: /repo is copied to a scratch directory, the real codegen binary is run and the committed generated sources of the health, reflection and rich-error crates are byte-compared.",
    "Held on the descriptor sets produced; the regeneration comparison is exact and complete (all generated files).",
-   "runtime monitoring: generator run + token-level differential client/server oracle + byte comparison of regenerated sources", "DESIGN.md#c11"),
+   "runtime monitoring: generated code compiled and run under a path/handler tap + generator-output inspection + byte comparison of regenerated sources", "DESIGN.md#c11"),
 }
 
 NOT_YET = {}
